@@ -9,7 +9,8 @@ input columns [lo, hi), `D k` k-th derivative sample, `P k` pointwise function o
 Lines:
   `new <stage> <dim> <ann> <s0> <p1> <p2>`   → `ok`
   `push <len> <gap>`                         → `ok <blocks>` | `err <Err>`   (continuous stages)
-  `ev <start> <stop> <e1,e2,…>`              → `ok <blocks>` | `err <Err>`   (event_rate)
+  `ev <start> <stop> <e1,e2,…> [q]`          → `ok <blocks>` | `err <Err>`   (event_rate; `q`: this
+                                               Events object has sampling rate fs/q instead of fs)
 A block is `s0;fs;ch;md;n;cells`; for non-annotated streams the first four fields are `_`.
 -/
 namespace Psi.Driver.Stages
@@ -34,6 +35,10 @@ def symFilt : Mealy Cell Cell (Option Nat) where
   step s c := match s, c with
     | some n, .x k => if k = n then (.f n, some (n + 1)) else (.bad, none)
     | _, _ => (.bad, none)
+
+/-- `lfilter` as SciPy behaves: for an empty input the reported final state is garbage (`none`) -/
+def symLf (s : Option Nat) (y : List Cell) : List Cell × Option Nat :=
+  if y.isEmpty then ([], none) else symFilt.run s y
 
 def symInit (c : Cell) : Option Nat := if c = .x 0 then some 0 else none
 
@@ -75,7 +80,7 @@ inductive StageSt
   | derivative (st : Option (P Cell))
   | pointwise
   | autoTh (baseline : Nat) (st : AutoSt Cell Rate String String (Option Nat))
-  | eventRate (size step : Nat) (st : Option RateSt)
+  | eventRate (size step : Nat) (st : Option (RateSt Rate))
   | dead
 
 structure St where
@@ -117,10 +122,10 @@ def push (s : St) (len : Nat) (gap : Int) : St × String :=
   match s.stage with
   | .blocked b st => finish s 0 (.blocked b) s' (blockedStep b st y)
   | .downsample q st => finish s 0 (.downsample q) s' (downsampleStep divFs s.twoD q st y)
-  | .decimate q st => finish s 0 (.decimate q) s' (decimateStep symFilt (some 0) divFs q st y)
+  | .decimate q st => finish s 0 (.decimate q) s' (decimateStep symLf (some 0) divFs q st y)
   | .discard st => finish s 0 .discard s' (discardStep st y)
   | .rms n st => finish s n (.rms n) s' (rmsStep symBlock divFs n st y)
-  | .iir st => finish s 0 .iir s' (iirStep symFilt symInit st y)
+  | .iir st => finish s 0 .iir s' (iirStep symLf symInit st y)
   | .derivative st => finish s 0 .derivative s' (derivativeStep Cell.ini symDiff st y)
   | .pointwise => finish s 0 (fun _ => .pointwise) s' (transformStep (pointwise symPoint) () y)
   | .autoTh bl st =>
@@ -128,17 +133,18 @@ def push (s : St) (len : Nat) (gap : Int) : St × String :=
   | .eventRate .. => (s, "bad-op")
   | .dead => (s, "err Dead")
 
-def showRateBlocks (step : Nat) (l : List (Nat × List Nat)) : String :=
+def showRateBlocks (l : List (PD Nat Rate String String)) : String :=
   if l.isEmpty then "ok -" else
-  "ok " ++ "|".intercalate (l.map fun (s0x2, counts) =>
-    s!"{s0x2}/2;fs/{step};chdef;mdempty;{counts.length};{showList counts}")
+  "ok " ++ "|".intercalate (l.map fun b =>
+    s!"{b.s0}/2;{showRate b.ann.fs};{b.ann.channel};{b.ann.metadata};{b.data.length};{showList b.data}")
 
-def pushEv (s : St) (start stop : Nat) (evs : List Nat) : St × String :=
+def pushEv (s : St) (start stop : Nat) (evs : List Nat) (fs : Rate) : St × String :=
   match s.stage with
   | .eventRate size step st =>
-    match eventRateStep size step st { events := evs, start := start, stop := stop } with
+    match eventRateStep divFs "chdef" "mdempty" size step st
+        { events := evs, start := start, stop := stop, fs := fs } with
     | .error e => ({ s with stage := .dead }, s!"err {showErr e}")
-    | .ok (bs, st') => ({ s with stage := .eventRate size step st' }, showRateBlocks step bs)
+    | .ok (bs, st') => ({ s with stage := .eventRate size step st' }, showRateBlocks bs)
   | .dead => (s, "err Dead")
   | _ => (s, "bad-op")
 
@@ -172,8 +178,12 @@ def step (s : St) (ws : List String) : St × String :=
     | _, _ => (s, "bad-op")
   | ["ev", start, stop, evs] =>
     match parseNat? start, parseNat? stop, parseNats? evs with
-    | some a, some b, some l => pushEv s a b l
+    | some a, some b, some l => pushEv s a b l []
     | _, _, _ => (s, "bad-op")
+  | ["ev", start, stop, evs, q] =>
+    match parseNat? start, parseNat? stop, parseNats? evs, parseNat? q with
+    | some a, some b, some l, some q => pushEv s a b l [q]
+    | _, _, _, _ => (s, "bad-op")
   | _ => (s, "bad-op")
 
 def main : IO Unit := run {} step
